@@ -1,9 +1,10 @@
 """C16 Form: typed, model and wire representations agree - necessary structural conditions only."""
 import collections
+import os
 import re
 
 from mirlib import op_place, AnchorMissing, describe_operand, describe_place, describe_rvalue, dom_guards, _suffix_match
-from rules.common import where, in_variant
+from rules.common import where, in_variant, return_locals
 
 META = {
     "explanation": (
@@ -851,6 +852,115 @@ def run(ctx):
                             "in state %s (a nested value is being read) an %s can make the machine answer with a value of its own without consulting the nested recogniser (blocks %s): the end of an item's own attribute / record is taken for the end of the outer body, so the direct reader rejects or cuts short what the model path reads" % (v, kind, (w or [])[:8]))
         if n_m < 3:
             raise AnchorMissing("expected the recogniser state machines that forward events (found %d)" % n_m)
+
+    with ctx.rule("C16.R17", "T2", "FirstOf: when the first alternative completes, its result is the answer", floor=2) as r:
+        # `FirstOf<A, B>` states a precedence: Option<T> is FirstOf<Empty.., Some(T)>, a collection in an attribute is FirstOf<SimpleAttrBody, items>.
+        # On a text both alternatives accept (an empty attribute for an Option<Vec<_>>), the first one's result is the value - the model and the
+        # MessagePack path carry an explicit Extant that only the first accepts, so the other answer makes the reading paths disagree.
+        fo = [b for b in f.all_bodies() if b.meta.get("name") == "feed_event" and "recognizer::FirstOf" in (b.meta.get("self_adt") or "")]
+        if len(fo) != 1:
+            raise AnchorMissing("FirstOf::feed_event (found %d)" % len(fo))
+        fo = ctx.saw(fo[0])
+        fes = [c for c in fo.calls if c.via_name == "feed_event" or c.name == "feed_event"]
+        c1 = [c for c in fes if describe_operand(fo, c.args[0]).endswith("recognizer1")]
+        c2 = [c for c in fes if describe_operand(fo, c.args[0]).endswith("recognizer2")]
+        both = [x for x in c1 if any(fo.reaches(x.block, {y.block}) or fo.reaches(y.block, {x.block}) for y in c2)]
+        if not both or not c2:
+            raise AnchorMissing("FirstOf::feed_event: the branch that feeds both alternatives")
+        first = both[0]
+        seconds = {y.block for y in c2}
+        OPT_SOME, RES_OK = 1, 0
+        retl = return_locals(fo)
+        bad_paths, n_ret = [], 0
+        seen_, work = set(), [(first.block, frozenset())]
+        budget = 40000
+
+        def learned(env, blk, succ):
+            # what the edge blk -> succ says about the value whose discriminant the block reads
+            t_ = fo.term(blk)
+            if t_["k"] != "switch":
+                return env, True
+            dp = op_place(t_["discr"])
+            for s_ in fo.stmts(blk):
+                if s_[0] == "A" and dp is not None and s_[1] == [dp[0], []] and s_[2][0] == "disc":
+                    src, spr = s_[2][1]
+                    fp = fo._fpath(spr)
+                    if fp is None:
+                        return env, True
+                    key = (src, "variant") if not fp else (src, tuple(fp) + ("#v",))
+                    names = s_[2][3] if len(s_[2]) > 3 else []
+                    arms = [(int(v_) if isinstance(v_, str) else v_, tb) for v_, tb in t_["arms"]]
+                    vals = [v_ for v_, tb in arms if tb == succ]
+                    d_ = dict(env)
+                    known = d_.get(key)
+                    if succ == t_["otherwise"] and not vals:
+                        rest = [k_ for k_, _ in names if k_ not in [v_ for v_, _ in arms]] if names else []
+                        if names and not rest:
+                            return env, False      # every variant has an arm of its own: the fall-through cannot be taken
+                        if known is not None:
+                            return env, known in rest or not rest
+                        if len(rest) == 1:
+                            d_[key] = rest[0]
+                            note(d_, src, tuple(fp), rest[0])
+                        return frozenset(d_.items()), True
+                    if known is not None:
+                        return env, known in vals
+                    if len(vals) == 1:
+                        d_[key] = vals[0]
+                        note(d_, src, tuple(fp), vals[0])
+                    return frozenset(d_.items()), True
+            return env, True
+
+        def note(d_, src, fp, idx):
+            # what is learnt about the first alternative's result is kept apart from the local that holds it (the local is dropped before the answer)
+            if d_.get((src, fp + ("#o",))) == ("orig", 1):
+                d_[("R1", "top")] = idx
+            elif fp and fp[-1] == 0 and d_.get((src, fp[:-1] + ("#o",))) == ("orig", 1):
+                d_[("R1", "payload")] = idx
+        while work and budget > 0:
+            budget -= 1
+            blk, env = work.pop()
+            if (blk, env) in seen_ or fo.is_cleanup(blk):
+                continue
+            seen_.add((blk, env))
+            t_ = fo.term(blk)
+            for s_, e_ in fo.cp_successors(blk, env):
+                e2, feasible = learned(e_, blk, s_)
+                if not feasible:
+                    continue
+                if t_["k"] == "call" and t_.get("dest") is not None and not t_["dest"][1] and blk in ({first.block} | seconds):
+                    d_ = dict(e2)
+                    d_[(t_["dest"][0], ("#o",))] = ("orig", 1 if blk == first.block else 2)
+                    e2 = frozenset(d_.items())
+                work.append((s_, e2))
+            # an answer: a value put into the return place in this block
+            d_after = dict(fo._cp_transfer(blk, env, sym=True))
+            for st in fo.stmts(blk):
+                if st[0] == "A" and st[1][0] in retl and not st[1][1] and st[2][0] in ("use", "agg"):
+                    org = d_after.get((st[1][0], ("#o",)))
+                    if org == ("orig", 2):
+                        n_ret += 1
+                        # where the first alternative's result is now, and what is known about it
+                        holders = [(l_, p_[:-1]) for (l_, p_), v_ in d_after.items() if isinstance(p_, tuple) and p_ and p_[-1] == "#o" and v_ == ("orig", 1)]
+                        ruled_out = d_after.get(("R1", "top")) == 0 or (d_after.get(("R1", "top")) == OPT_SOME and d_after.get(("R1", "payload")) == 1)
+                        for l_, pre in holders:
+                            v1 = d_after.get((l_, "variant")) if not pre else d_after.get((l_, pre + ("#v",)))
+                            v2 = d_after.get((l_, pre + (0, "#v")))
+                            if v1 == 0 or (v1 == OPT_SOME and v2 == 1):
+                                ruled_out = True
+                        if not ruled_out and not holders:
+                            # the first result is gone: it was examined before the second alternative was fed (the sequential form); decided there
+                            ruled_out = all(fo.dominates(first.block, y) for y in seconds) and not any(fo.path_avoiding([first.block], {y}, avoid=set()) is None for y in seconds) and \
+                                all(any(d.startswith("disc(feed_event(") and "recognizer1" in d and l in ("None", "Err") for d, l, _ in dom_guards(fo, y)) for y in seconds)
+                        if not ruled_out:
+                            if os.environ.get("DBG17"): print("DBG17", blk, {k: v for k, v in d_after.items() if k[0] == "R1" or (isinstance(k[1], tuple) and k[1] and k[1][-1] in ("#o", "#v")) or k[1] == "variant"})
+                            bad_paths.append(blk)
+                    elif org == ("orig", 1):
+                        n_ret += 1
+        r.check(budget > 0 and n_ret >= 2, "FirstOf/feed_event/analysed", where(fo), "%d answers that hand on the result of one of the alternatives" % n_ret, "could not follow the results of the two alternatives to the answers (%d found)" % n_ret)
+        r.check(not bad_paths, "FirstOf/feed_event/first-alternative-wins", where(fo), "the second alternative's result is the answer only when the first one did not complete with a value",
+                "FirstOf::feed_event can answer with the second alternative's result although the first alternative may have completed successfully on the same event (blocks %s): for an absent "
+                "Option<Vec<_>> / Option<HashMap<_, _>> in an attribute or body, read from text, both alternatives accept and `Some(empty)` wins over `None` - the direct reading and the reading via the model disagree" % sorted(set(bad_paths))[:4])
 
     with ctx.rule("C16.R15", "T5", "derive(Tag): the name a variant is written under (as_ref, VARIANTS) is the name it is read back by (from_str)", floor=3) as r:
         # One clause of the derive macros that *is* table agreement inside a single function: DeriveTag::to_tokens builds three tables from the same
